@@ -1,8 +1,9 @@
-(* C02 Decision certificate. Proved here: the counting clause for every reachable state. The signature clause is false
+(* C02 Decision certificate. Proved here: the counting clause and the "accepted block is the proposal" clause for every
+   reachable state. The signature clause is false
    for the faithful model (known findings D1/D1p/D2: payloads stored before the proposal are never verified); the
    refutation is replayed on the real code by the corpus scenarios of every check run (DESIGN.md C02). *)
 From Coq Require Import ZArith List.
-From DbftV Require Import Gates.
+From DbftV Require Import Gates P02.
 Open Scope Z_scope.
 
 (* a block is handed to the application only while the node holds commits of its current view in at least M slots and
@@ -18,3 +19,22 @@ Theorem preblock_handed_over_only_with_M_precommits cfg st ev sc st' tr s h e :
   hasAllTransactions s = true /\ Mq s <= count_view (ViewNumber s) (PreCommitPayloads s).
 Proof. exact (fun HR Hs Hin => proj1 (proj2 (processpreblock_gate cfg st ev sc st' tr s h e HR Hs Hin))). Qed.
 Print Assumptions preblock_handed_over_only_with_M_precommits.
+
+(* the accepted block is the view's primary proposal: at the callback handing over a block, in every history, the block is
+   the node's header; its timestamp, nonce and transaction list (in order) are those of the PrepareRequest of the node's
+   current view held in the primary's slot; its index and previous hash are the context's, read from the application when
+   the height was initialised *)
+Theorem accepted_block_is_the_proposal_of_the_view cfg st ev sc st' tr s h e :
+  Reach cfg st -> step cfg st ev sc = Ok (st', tr) -> In (s, CProcessBlock h e) tr ->
+  exists b r, header s = Some b /\ h = block_hash b /\ slot (PreparationPayloads s) (PrimaryIndex s) = Some r /\
+              p_type r = PrepareRequestT /\ p_view r = ViewNumber s /\
+              p_body r = B0 (BPrepareRequest (b_ts b) (b_nonce b) (b_hashes b)) /\
+              b_index b = BlockIndex s /\ b_prev b = PrevHash s.
+Proof. exact (accepted_block_is_the_primary_proposal cfg st ev sc st' tr s h e). Qed.
+Print Assumptions accepted_block_is_the_proposal_of_the_view.
+
+(* ... and that slot is the one of the view's primary, (height - view) mod N *)
+Theorem primary_slot_is_that_of_the_view cfg st :
+  Reach cfg st -> 0 < N st -> PrimaryIndex st = Quorum.primary (BlockIndex st) (ViewNumber st) (N st).
+Proof. exact (fun HR HN => eq_trans (primary_slot_is_the_view_primary cfg st HR HN) (primary_of_is_quorum_primary st (ViewNumber st))). Qed.
+Print Assumptions primary_slot_is_that_of_the_view.
